@@ -223,19 +223,28 @@ fn command_go(
                 let search_is_running = search_is_running.clone();
                 move || {
                     thread::sleep(time);
+                    #[cfg(daniel729_chess_verif)]
+                    crate::verif::sched("timer_wake");
                     search_is_running.store(false, Relaxed);
                 }
             });
         }
     }
 
+    #[cfg(daniel729_chess_verif)]
+    crate::verif::sched("before_raise");
+
     let thread = thread::spawn({
         search_is_running.store(true, Relaxed);
         let data_mutex = data_mutex.clone();
         let search_is_running = search_is_running.clone();
         move || {
+            #[cfg(daniel729_chess_verif)]
+            crate::verif::sched("search_start");
             let mut data = data_mutex.lock().unwrap();
             let (current_game, cache) = data.mut_refs();
+            #[cfg(daniel729_chess_verif)]
+            crate::verif::search_begin();
             let best_move = get_best_move_until_stop(
                 current_game.as_mut().unwrap(),
                 cache,
@@ -249,6 +258,8 @@ fn command_go(
                 println!("bestmove none");
             }
 
+            #[cfg(daniel729_chess_verif)]
+            crate::verif::sched("after_bestmove");
             search_is_running.store(false, Relaxed);
             *current_game = None;
         }
